@@ -55,6 +55,7 @@ type Rpc struct {
 	Name2    string            `json:"name2,omitempty"`
 	Labels   map[string]string `json:"labels,omitempty"`
 	Advanced bool              `json:"advanced,omitempty"`
+	Bad      bool              `json:"bad,omitempty"` // publishCheck: batch [valid message, payload that is not JSON]
 	Has      bool              `json:"has,omitempty"`
 	Paths    []string          `json:"paths,omitempty"`
 	Project  string            `json:"project,omitempty"`
@@ -434,8 +435,12 @@ func (w *ApiWorld) ExecRpc(r Rpc) *RpcResult {
 			_, err = w.Sub.DeleteSnapshot(ctx, &pubsubpb.DeleteSnapshotRequest{Snapshot: r.Name})
 			fields = "name=" + Enc(r.Name)
 		case "publishCheck":
-			_, err = w.Pub.Publish(ctx, &pubsubpb.PublishRequest{Topic: r.Name})
-			fields = "topic=" + Enc(r.Name)
+			preq := &pubsubpb.PublishRequest{Topic: r.Name}
+			if r.Bad {
+				preq.Messages = []*pubsubpb.PubsubMessage{{Data: []byte(`{"ok":1}`)}, {Data: []byte(`not json`), Attributes: map[string]string{"x": "1"}}}
+			}
+			_, err = w.Pub.Publish(ctx, preq)
+			fields = "topic=" + Enc(r.Name) + " bad=" + boolStr(r.Bad)
 		default:
 			panic("unknown rpc kind " + r.Kind)
 		}
